@@ -7,7 +7,7 @@ EXTENDS Naturals, Sequences, FiniteSets, TLC, Json, SequencesExt, IOUtils
 CONSTANTS MaxLen, Known
 NoDev == {}
 LuaDevs == {"LuaPositionalRenumbering", "LuaNumericNameClampedTo1000", "LuaPositionalFinalNewlineDropped"}
-KnownC14 == {"LuaNumericNameClampedTo1000", "LuaPositionalFinalNewlineDropped"}
+KnownC14 == {"LuaNumericNameClampedTo1000", "LuaPositionalFinalNewlineDropped", "NodeViewDropsBlankOnlyLines"}
 
 Ideal == INSTANCE ArgViews WITH Dev <- NoDev
 AsIs == INSTANCE ArgViews WITH Dev <- Known
@@ -22,14 +22,17 @@ Forms ==
     <<"q", "=", "j", "=", "k">>,                                                        \* '=' inside the value
     <<"1", "0", "0", "1", "=", "m">>,                                                   \* numeric name > 1000
     <<"r", "=", "n", "NL", "o">>, <<"4", "=", "p", "NL", "q">>, <<"s", "NL", "t">>,     \* a line break inside a value
-    <<"0", "=", "a0">>, <<"-", "1", "=", "a1">>, <<"1", ".", "5", "=", "a2">> }         \* names a number parser accepts but that are no positive integers: strings
+    <<"0", "=", "a0">>, <<"-", "1", "=", "a1">>, <<"1", ".", "5", "=", "a2">>,
+    <<"2", "=", "b", "SP">>, <<"1", "=", "SP", "c", "NL">>, <<"x", "=", "d", "NL">>,
+    <<"a", "NL", "SP", "NL", "b">>, <<"SP", "NL", "c">>, <<"d", "NL", "SP">>,                               \* a line of blanks only inside / at the edge of a value
+    <<"n", "=", "e", "NL", "SP", "SP", "NL", "f">> }                      \* blanks AFTER the value of a (numeric-)named argument         \* names a number parser accepts but that are no positive integers: strings
 
 \* a reduced alphabet for the deeper bound (one form of every kind, the ones whose interaction matters:
 \* positionals with and without blanks, a named one, numeric names 1..3 in both spellings, a name > 1000)
 FormsR ==
   { <<"v">>, <<"SP", "v", "SP">>, <<"u", "NL">>, <<"x", "=", "a">>, <<"y", "=", "NL", "c", "NL">>,
     <<"1", "=", "f">>, <<"2", "=", "g">>, <<"SP", "3", "SP", "=", "SP", "h">>, <<"0", "1", "=", "i">>,
-    <<"1", "0", "0", "1", "=", "m">>, <<"0", "=", "a0">> }
+    <<"1", "0", "0", "1", "=", "m">>, <<"0", "=", "a0">>, <<"2", "=", "b", "SP">> }
 
 Lists == UNION { [1..n -> Forms] : n \in 0..MaxLen }
 ListsR == { l \in [1..5 -> FormsR] : TRUE }
@@ -51,6 +54,6 @@ Laws == Ideal!ViewsAgree(args)
 \* Demo: the earlier Lua frame construction disagrees with the reference
 DemoLua == Old!ViewLua(args) = Old!ArgMap(args)
 Emit == PrintT(<<"CASE", ToJson([args |-> args, map |-> AsSeq(Ideal!ArgMap(args)),
-                                 lua_asis |-> AsSeq(AsIs!ViewLua(args))])>>)
+                                 lua_asis |-> AsSeq(AsIs!ViewLua(args)), node_asis |-> AsSeq(AsIs!ViewNode(args))])>>)
 GenInv == Laws /\ Emit
 =============================================================================
